@@ -121,3 +121,103 @@ func (c *Ctx) checkInfixPrinter(r *Report) {
 		r.Undecided("C02.R10: no nil test on InfixExpression.Right found in %s (the parser leaves it nil for a[1:])", fname)
 	}
 }
+
+// checkSingleStatementAccess: rule C02.R11.
+//
+// A printer that takes one element of a statement list (the `else if` folding prints Alternative.Statements[0]
+// instead of the block, the lambda printer looks at Body.Statements[0] to drop the braces) stands for the
+// whole list only when the list has exactly that one element: in packages ast and object every
+// constant-index access k into the Statements slice of an ast.Statements lies on the edge where
+// len(of that slice) == k+1. With "non-empty" instead of "exactly one", everything after the first statement
+// is silently dropped from the formatted program (else { if b {2}; c } printed as else if b {2}).
+func (c *Ctx) checkSingleStatementAccess(r *Report, rule string) {
+	stmtsT := c.TypeNamed("ast", "Statements")
+	fidx := fieldIndex(stmtsT, "Statements")
+	if fidx < 0 {
+		r.Undecided("%s: ast.Statements.Statements not found", rule)
+		return
+	}
+	isStmtsSlice := func(v ssa.Value) bool {
+		switch x := v.(type) {
+		case *ssa.UnOp:
+			if fa, ok := x.X.(*ssa.FieldAddr); ok && x.Op == token.MUL {
+				n := namedStruct(fa.X.Type())
+				return n != nil && n.Obj() == stmtsT.Obj() && fa.Field == fidx
+			}
+		case *ssa.Field:
+			n := namedStruct(x.X.Type())
+			return n != nil && n.Obj() == stmtsT.Obj() && x.Field == fidx
+		}
+		return false
+	}
+	n := 0
+	for _, fn := range c.ModuleSSAFuncs() {
+		if fn.Pkg == nil {
+			continue
+		}
+		if pk := shortPkg(fn.Pkg.Pkg); pk != "ast" && pk != "object" {
+			continue
+		}
+		fname := ssaFuncName(fn)
+		k := 0
+		eachInstr(fn, func(in ssa.Instruction) {
+			ia, ok := in.(*ssa.IndexAddr)
+			if !ok || !isStmtsSlice(ia.X) {
+				return
+			}
+			idx, isK := constInt(ia.Index)
+			if !isK {
+				return
+			}
+			n++
+			k++
+			desc := "constant-index statement access #" + itoa(k) + " is on the exact-length edge"
+			exact := false
+			for _, cc := range controlling(ia.Block()) {
+				bin, ok := cc.Cond.(*ssa.BinOp)
+				if !ok {
+					continue
+				}
+				kk, isK := constInt(bin.Y)
+				lc, isLen := bin.X.(*ssa.Call)
+				if !isK || !isLen || kk != idx+1 {
+					continue
+				}
+				bi, isBi := lc.Common().Value.(*ssa.Builtin)
+				if !isBi || bi.Name() != "len" {
+					continue
+				}
+				arg := lc.Common().Args[0]
+				if !(arg == ia.X || (isStmtsSlice(arg) && sameStmtsOwner(arg, ia.X))) {
+					continue
+				}
+				if (bin.Op == token.EQL && cc.Edge == 0) || (bin.Op == token.NEQ && cc.Edge == 1) {
+					exact = true
+				}
+			}
+			r.Check(exact, rule, fname, desc, c.Pos(ia.Pos()),
+				"element "+itoa(int(idx))+" of a statement list is taken where the list is not known to have exactly "+itoa(int(idx)+1)+" element(s): a printer that prints this element in place of the block drops every statement after it")
+		})
+	}
+	if n < 3 {
+		r.Undecided("%s: only %d constant-index statement accesses found (printElse and lambdaPrint expected)", rule, n)
+	}
+	r.Floor(rule, 3)
+}
+
+// sameStmtsOwner: two loads of the Statements field of the same ast.Statements value.
+func sameStmtsOwner(a, b ssa.Value) bool {
+	owner := func(v ssa.Value) ssa.Value {
+		switch x := v.(type) {
+		case *ssa.UnOp:
+			if fa, ok := x.X.(*ssa.FieldAddr); ok {
+				return fa.X
+			}
+		case *ssa.Field:
+			return x.X
+		}
+		return nil
+	}
+	oa, ob := owner(a), owner(b)
+	return oa != nil && ob != nil && (oa == ob || sameValue(oa, ob))
+}
